@@ -1,6 +1,7 @@
 """Adversarial action programs for the rule-action harness (harness/impl_vmslot.cpp)."""
 NEXT, PUT_COPY, INSERT, DELETE, ASSOC, ATTR_SET, ATTR_SET_SLOT, PUSH_BYTE, RET_ZERO, POP_RET = 0x19, 0x1E, 0x1F, 0x20, 0x21, 0x23, 0x26, 0x01, 0x31, 0x30
 PUSH_LONG = 0x05
+ATTR_ADD, IATTR_SET = 0x24, 0x33
 ATT_TO, ADV_X, ATT_X = 2, 0, 3
 
 
@@ -43,7 +44,14 @@ def gen_rule(rng, nslots):
                         n = rng.randrange(1, 3); bc += [ASSOC, n] + [rel() & 255 for _ in range(n)]
                 break
             else:
-                bc += [PUSH_BYTE, rng.randrange(0, 100), ATTR_SET, rng.choice((ADV_X, ATT_X))]
+                r2 = rng.random()
+                if r2 < 0.7:
+                    bc += [PUSH_BYTE, rng.randrange(0, 100), ATTR_SET, rng.choice((ADV_X, ATT_X))]
+                elif r2 < 0.9:                                   # any slot attribute the loader lets a substitution rule set (attach.to is covered above)
+                    at = rng.choice([a for a in range(0, 31) if a != ATT_TO] + [22, 22, 55, 56, 57, 60])
+                    bc += [PUSH_BYTE, rng.choice((0, 1, 3, 100, 255)), rng.choice((ATTR_SET, ATTR_SET, ATTR_ADD)), at]
+                else:                                            # an indexed attribute (user attributes, justification levels)
+                    bc += [PUSH_BYTE, rng.choice((0, 1, 7, 255)), IATTR_SET, rng.choice((55, 55, 25, 26, 28, 22)), rng.choice((0, 1, 2, 7, 63, 255))]
         bc += [NEXT]
         i += 1
     if rng.random() < 0.05:                                  # the cursor stands on the slot after the rule: delete it
